@@ -1,7 +1,8 @@
 --------------------------- MODULE Trace_Direction ---------------------------
 (* C13 conformance (trace-monitor).  One record = one REAL fdtdx run with a plane source between two library
    PoyntingFluxDetector planes (same transverse extent as the source, a quarter wavelength in front of / behind it):
-     axis, dir, pol, profile, res, beam     the configuration (must be one of DirectionDefs!Configs)
+     axis, dir, pol, profile, res, beam, switch   the configuration (must be one of DirectionDefs!Configs)
+     delaySteps, onToEnd                     first step at which the placed source is on; it stays on until the last step
      cpwMilli, radiusMilli                   cells per wavelength * 1000, Gaussian radius in 1e-3 wavelengths (0: uniform)
      normal, periodic, homogeneous           azimuth = elevation = 0 / transverse faces periodic / vacuum everywhere
      tSteady, T                              first step of the Steady phase, number of steps
@@ -20,7 +21,8 @@ VARIABLE ci
 N(c) == Len(c.events)
 Phase(c, ev) == D!PhaseAt(ev.t0, c.tSteady)
 Shape(c) ==
-    /\ [axis |-> c.axis, dir |-> c.dir, pol |-> c.pol, profile |-> c.profile, res |-> c.res, beam |-> c.beam] \in D!Configs
+    /\ [axis |-> c.axis, dir |-> c.dir, pol |-> c.pol, profile |-> c.profile, res |-> c.res, beam |-> c.beam, switch |-> c.switch] \in D!Configs
+    /\ c.onToEnd /\ c.delaySteps >= 0 /\ (c.switch = "on" <=> c.delaySteps = 0)
     /\ c.cpwMilli = c.res * 1000
     /\ N(c) >= 1 /\ \A i \in 1..N(c) : 0 <= c.events[i].t0 /\ c.events[i].t0 < c.events[i].t1 /\ c.events[i].t1 <= c.T
                                        /\ c.events[i].ratio >= 0 /\ c.events[i].pf >= 0
@@ -29,7 +31,8 @@ Shape(c) ==
     /\ (c.profile = "pulse" => \A i \in 1..N(c) : c.events[i].t0 = 0)
 \* Steady must not be declared before the source has settled: cw - linear ramp over (rampSteps) plus the way to the
 \* planes and back (settleSteps); pulse - the pulse is over (rampSteps = 12 sigma) plus the way to the planes
-Timing(c) == c.tSteady >= c.rampSteps + c.settleSteps /\ c.rampSteps > 0 /\ c.settleSteps > 0
+\* a switched source runs on its own clock: ramp / pulse start at delaySteps
+Timing(c) == c.tSteady >= c.delaySteps + c.rampSteps + c.settleSteps /\ c.rampSteps > 0 /\ c.settleSteps > 0
 SteadySet(c) == { i \in 1..N(c) : IF c.profile = "cw" THEN Phase(c, c.events[i]) = "Steady" ELSE c.events[i].t1 >= c.tSteady }
 PhaseOf(c, i) == IF i \in SteadySet(c) THEN "Steady" ELSE "Ramp"
 Verdict(c) ==
